@@ -125,15 +125,16 @@ end RunIOJ
 open Clikit.AppState Clikit.RunIO in
 /-- the runs of a history on one application object, each answered from the state the previous ones left:
 status, what happened, the command and args selected, the abstract handlers invoked with their args, the
-leniency setting of every listed command AFTER the run; and the I/O of the run (`RunIO.runAppIO`): per handler call the
+leniency setting of every listed command AFTER the run; and the I/O of the run (`RunIO.runAppIO` = `runAppIOP` with
+`fp = .perRun`, the code as it is; `.cachedPerConfig` on request only: the seeded protocol): per handler call the
 I/O state it found and the probe lines as shown, and the configuration's style set after the run -/
-def histRuns (env : Clikit.App.Env) (e : IOEnv) (cv : Clikit.Parser.Conv) (app : List Clikit.Resolver.Cmd)
+def histRuns (fp : FmtProto) (env : Clikit.App.Env) (e : IOEnv) (cv : Clikit.Parser.Conv) (app : List Clikit.Resolver.Cmd)
     (hs : Clikit.App.Handlers) (hio : IOHandlers)
     (paths : List (List Str)) : Clikit.AppState.AppState × World → List (List Str) → List Json
   | _, [] => []
   | sw, l :: rest =>
     let s := sw.1
-    let rr := runAppIO env e cv app hs hio sw l
+    let rr := runAppIOP Proto.source fp env e cv app hs hio sw l
     let r : Clikit.App.Result × Clikit.AppState.AppState := (rr.1.1, rr.2.1)
     Json.mkObj [
       ("status", jOpt jNat r.1.status),
@@ -148,7 +149,7 @@ def histRuns (env : Clikit.App.Env) (e : IOEnv) (cv : Clikit.Parser.Conv) (app :
       ("len", jList (fun (p : List Str) =>
           Json.arr #[jStrs p, jOpt (fun (b : Bool) => Json.bool b) (lenEntry r.2 p).current]) paths),
       ("restored", .bool (paths.all fun p => (lenEntry r.2 p).current == (lenEntry r.2 p).configured))]
-      :: histRuns env e cv app hs hio paths rr.2 rest
+      :: histRuns fp env e cv app hs hio paths rr.2 rest
 
 
 section RenderHist
@@ -226,7 +227,12 @@ def handle (m : String) (j : Json) : Option (R Json) :=
       let probe ← (← fArr ioj "probe").toList.mapM (hopOf pastel)
       let tweakPath ← (← fArr ioj "tweak_path").toList.mapM asChars
       let e : Clikit.RunIO.IOEnv := { pastel := pastel, streams := streams }
-      return Json.arr (histRuns env e cv app hs (hioOf tweakPath tweaks probe) (raw.map (·.1))
+      -- `fmt_proto` absent: the code as it is; "cached": the protocol of the seeded change C17-8 (mutation trials only)
+      let fp : Clikit.RunIO.FmtProto ← match fOpt ioj "fmt_proto" with
+        | none | some (.str "per_run") => pure .perRun
+        | some (.str "cached") => pure .cachedPerConfig
+        | some _ => throw "fmt_proto: per_run / cached expected"
+      return Json.arr (histRuns fp env e cv app hs (hioOf tweakPath tweaks probe) (raw.map (·.1))
         (Clikit.AppState.initState raw parsers, Clikit.RunIO.World.fresh ss) lines).toArray
   | "c17.help_protocol" => some do
       let cur ← optBoolOf j "cur"
